@@ -1,5 +1,9 @@
 """registry.CollectorRegistry._get_names: the `type_suffixes` dict literal (metric type -> suffixes a family of that
-type claims besides its own name), and the shape of the loop that applies it."""
+type claims besides its own name), and the shape of the loop that applies it; the frame flags (constructors, target-info
+dict copies); and the DECISION STRUCTURE of register / unregister / set_target_info / collect / _get_names /
+RestrictedRegistry.collect as Bool flags which Model/Registry.lean consults (statement order, which test guards which
+store, operator polarity): a recognised variant flips a flag — the model then does what that code does and the frame /
+invariant theorems stop checking — and an unrecognised shape is an EXTRACT-FAIL with the reference values as defaults."""
 import ast
 from leanlit import *
 
@@ -69,11 +73,337 @@ def frame_flags(repo):
     return flags, notes
 
 
-def _emit(ok, table, why='', flags=None, notes=()):
+# ---------------------------------------------------------------------------------------------------------------------
+# decision structure of the registry methods (normal forms -> Bool flags the Lean model consults)
+# ---------------------------------------------------------------------------------------------------------------------
+
+N2C = 'self._names_to_collectors'
+C2N = 'self._collector_to_names'
+TI = 'self._target_info'
+
+SHAPE_FLAGS = [
+    # (name, doc) — default (on an unreadable shape) is ALWAYS the reference behaviour = true
+    ('registerChecksAllBeforeStore', 'register: the clash test covers ALL names against `_names_to_collectors` and its raise precedes every store '
+                                     '(false: names are tested and stored one by one, so a raise leaves the earlier names inserted)'),
+    ('setTargetInfoStoresAfterCheck', 'set_target_info: `self._target_info = …` comes after the raise (false: assigned first, the tests read the saved previous value)'),
+    ('setTargetInfoClashNegatesPrevious', 'set_target_info: the clash test reads `not <previous target info>`'),
+    ('setTargetInfoClashIsConjunction', 'set_target_info: the two parts of the clash test are joined by `and`'),
+    ('setTargetInfoClearsOnlyWhenPreviouslySet', 'set_target_info: falsy labels pop the reservation only under `elif <previous target info>`'),
+    ('unregisterTakesRecordedNames', 'unregister: the names released are `_collector_to_names[collector]` (false: recomputed with `_get_names`)'),
+    ('unregisterDeletesEachName', 'unregister: each of them is `del`eted from `_names_to_collectors`, then the collector entry'),
+    ('collectSnapshotsUnderLock', 'collect: `_collector_to_names` is copied and target info read inside `with self._lock`'),
+    ('collectTargetInfoFirst', 'collect: the target-info family is yielded before the collectors, which follow in dict order'),
+    ('getNamesAutoDescribeFallback', '_get_names: describe attribute first; absent (AttributeError) and auto_describe -> collect; neither -> []'),
+    ('restrictedResolvesUnderLock', 'RestrictedRegistry.collect: names are resolved and target info read under the registry lock'),
+    ('restrictedCollectorsIsSet', 'RestrictedRegistry.collect: the resolved collectors are gathered in a set (false: a list, appended without test)'),
+    ('restrictedTargetInfoNeedsRequested', "RestrictedRegistry.collect: target info only when 'target_info' is in the name set"),
+    ('restrictedTargetInfoNeedsConfigured', 'RestrictedRegistry.collect: target info only when the registry has it configured'),
+    ('restrictedFiltersAndDropsEmpty', 'RestrictedRegistry.collect: every family goes through `_restricted_metric(name_set)`, falsy results are dropped'),
+]
+
+
+def _u(n):
+    return ast.unparse(n)
+
+
+def _body(f):
+    """statements of a function without its docstring"""
+    b = list(f.body)
+    if b and isinstance(b[0], ast.Expr) and isinstance(b[0].value, ast.Constant) and isinstance(b[0].value.value, str):
+        b = b[1:]
+    return b
+
+
+def _is_none_init(st):
+    return (isinstance(st, ast.Assign) and all(isinstance(t, ast.Name) for t in st.targets)
+            and isinstance(st.value, ast.Constant) and st.value.value is None)
+
+
+def _single_with(stmts, lock, what):
+    """stmts must be: (`x = None`)* ; `with <lock>: BODY` ; rest  -> (preamble, BODY, rest)"""
+    for i, st in enumerate(stmts):
+        if isinstance(st, ast.With):
+            if len(st.items) != 1 or _u(st.items[0].context_expr) != lock or st.items[0].optional_vars is not None:
+                raise Fail('%s: expected `with %s:`, got `with %s`' % (what, lock, ', '.join(_u(i_) for i_ in st.items)))
+            return stmts[:i], list(st.body), stmts[i + 1:]
+    raise Fail('%s: no `with %s:` block' % (what, lock))
+
+
+def _raises_value_error(st):
+    return (isinstance(st, ast.Raise) and st.exc is not None
+            and _u(st.exc.func if isinstance(st.exc, ast.Call) else st.exc) == 'ValueError')
+
+
+def shape_register(tree):
+    f = find_func(tree, 'register', cls='CollectorRegistry')
+    pre, body, rest = _single_with(_body(f), 'self._lock', 'register')
+    if pre or rest:
+        raise Fail('statements outside `with self._lock`: %s' % _u((pre + rest)[0])[:80])
+    steps = []
+    dupvar = None
+    all_tests = ('set(%s).intersection(names)' % N2C, 'set(names).intersection(%s)' % N2C, 'set(%s) & set(names)' % N2C,
+                 'set(names) & set(%s)' % N2C, '[name for name in names if name in %s]' % N2C,
+                 '{name for name in names if name in %s}' % N2C)
+    for st in body:
+        u = _u(st)
+        if u == 'names = self._get_names(collector)':
+            steps.append('getNames')
+        elif isinstance(st, ast.Assign) and len(st.targets) == 1 and isinstance(st.targets[0], ast.Name) and _u(st.value) in all_tests:
+            dupvar = st.targets[0].id
+            steps.append('testAll')
+        elif isinstance(st, ast.If) and not st.orelse and len(st.body) == 1 and _raises_value_error(st.body[0]) \
+                and (_u(st.test) == dupvar or _u(st.test) in all_tests):
+            if _u(st.test) in all_tests:
+                steps.append('testAll')
+            steps.append('raise')
+        elif isinstance(st, ast.For) and not st.orelse and _u(st.target) == 'name' and _u(st.iter) == 'names':
+            steps.append('loop[')
+            for b in st.body:
+                ub = _u(b)
+                if ub == '%s[name] = collector' % N2C:
+                    steps.append('storeName')
+                elif isinstance(b, ast.If) and not b.orelse and len(b.body) == 1 and _raises_value_error(b.body[0]) \
+                        and _u(b.test) == 'name in %s' % N2C:
+                    steps += ['testOne', 'raise']
+                else:
+                    raise Fail('statement in the name loop not understood: %s' % ub[:100])
+            steps.append(']')
+        elif u == '%s[collector] = names' % C2N:
+            steps.append('storeCollector')
+        else:
+            raise Fail('statement not understood: %s' % u.replace('\n', ' / ')[:120])
+    ref = ['getNames', 'testAll', 'raise', 'loop[', 'storeName', ']', 'storeCollector']
+    inc = ['getNames', 'loop[', 'testOne', 'raise', 'storeName', ']', 'storeCollector']
+    if steps == ref:
+        return {'registerChecksAllBeforeStore': True}, ' '.join(steps)
+    if steps == inc:
+        return {'registerChecksAllBeforeStore': False}, ' '.join(steps)
+    raise Fail('step order %s is neither check-all-then-store nor check-and-store-one-by-one' % ' '.join(steps))
+
+
+def shape_unregister(tree):
+    f = find_func(tree, 'unregister', cls='CollectorRegistry')
+    pre, body, rest = _single_with(_body(f), 'self._lock', 'unregister')
+    if pre or rest:
+        raise Fail('statements outside `with self._lock`: %s' % _u((pre + rest)[0])[:80])
+    srcs = {'%s[collector]' % C2N: True, 'self._get_names(collector)': False}
+    it = None
+    if len(body) == 3 and isinstance(body[0], ast.Assign) and _u(body[0].targets[0]) == 'names' and _u(body[0].value) in srcs:
+        it = _u(body[0].value)
+        body = body[1:]
+        loop_iter = 'names'
+    else:
+        loop_iter = None
+    if len(body) != 2 or not isinstance(body[0], ast.For) or body[0].orelse:
+        raise Fail('expected a name loop followed by the deletion of the collector entry')
+    lp = body[0]
+    if loop_iter is None:
+        it = _u(lp.iter)
+        if it not in srcs:
+            raise Fail('the released names come from `%s`' % it[:80])
+    elif _u(lp.iter) != loop_iter:
+        raise Fail('the loop iterates `%s`' % _u(lp.iter)[:80])
+    if _u(lp.target) != 'name' or [_u(b) for b in lp.body] != ['del %s[name]' % N2C]:
+        raise Fail('loop body is not `del %s[name]`: %s' % (N2C, ' / '.join(_u(b) for b in lp.body)[:100]))
+    if _u(body[1]) != 'del %s[collector]' % C2N:
+        raise Fail('last statement is not `del %s[collector]`: %s' % (C2N, _u(body[1])[:80]))
+    return {'unregisterTakesRecordedNames': srcs[it], 'unregisterDeletesEachName': True}, 'names<-%s loop[ delName ] delCollector' % it
+
+
+def shape_set_target_info(tree):
+    f = find_func(tree, 'set_target_info', cls='CollectorRegistry')
+    pre, body, rest = _single_with(_body(f), 'self._lock', 'set_target_info')
+    if pre or rest:
+        raise Fail('statements outside `with self._lock`: %s' % _u((pre + rest)[0])[:80])
+    ifs = [i for i, st in enumerate(body) if isinstance(st, ast.If)]
+    if len(ifs) != 1:
+        raise Fail('expected exactly one top-level if/elif in the locked block, found %d' % len(ifs))
+    k = ifs[0]
+    prev = None
+    stored_before = stored_after = 0
+    for st in body[:k]:
+        if isinstance(st, ast.Assign) and len(st.targets) == 1:
+            t, v = st.targets[0], st.value
+            if isinstance(t, ast.Name) and _u(v) == TI:
+                prev = t.id
+                continue
+            if _u(t) == TI:
+                stored_before += 1
+                continue
+            if isinstance(t, ast.Tuple) and isinstance(v, ast.Tuple) and len(t.elts) == 2 == len(v.elts) \
+                    and isinstance(t.elts[0], ast.Name) and _u(t.elts[1]) == TI and _u(v.elts[0]) == TI:
+                prev = t.elts[0].id            # `previous, self._target_info = self._target_info, <new>`
+                stored_before += 1
+                continue
+        raise Fail('statement before the if not understood: %s' % _u(st)[:100])
+    for st in body[k + 1:]:
+        if isinstance(st, ast.Assign) and len(st.targets) == 1 and _u(st.targets[0]) == TI:
+            stored_after += 1
+            continue
+        raise Fail('statement after the if not understood: %s' % _u(st)[:100])
+    if stored_before + stored_after != 1:
+        raise Fail('`%s` is assigned %d times' % (TI, stored_before + stored_after))
+    after = stored_after == 1
+    if after:
+        if prev is not None:
+            raise Fail('a saved previous value `%s` next to a store after the check' % prev)
+        PREV = TI
+    else:
+        if prev is None:
+            raise Fail('`%s` is overwritten before the tests and no previous value is saved' % TI)
+        PREV = prev
+    top = body[k]
+    if _u(top.test) != 'labels' and not (not after and _u(top.test) == TI):
+        raise Fail('outer test is `%s`, expected `labels`' % _u(top.test)[:80])
+    # truthy branch: clash test -> raise ; reservation
+    tb = top.body
+    if len(tb) != 2 or not isinstance(tb[0], ast.If) or tb[0].orelse or len(tb[0].body) != 1 or not _raises_value_error(tb[0].body[0]):
+        raise Fail('truthy branch is not [if <clash>: raise ValueError ; reserve]')
+    ct = tb[0].test
+    if not isinstance(ct, ast.BoolOp) or len(ct.values) != 2:
+        raise Fail('clash test is not a two-part and/or: %s' % _u(ct)[:100])
+    parts = [_u(v) for v in ct.values]
+    claimed = "'target_info' in %s" % N2C
+    if claimed not in parts:
+        raise Fail('clash test does not look up %s: %s' % (claimed, _u(ct)[:100]))
+    other = parts[1 - parts.index(claimed)]
+    if other == 'not %s' % PREV:
+        neg = True
+    elif other == PREV:
+        neg = False
+    else:
+        raise Fail('clash test reads `%s`, expected `not %s`' % (other[:60], PREV))
+    if _u(tb[1]) != "%s['target_info'] = _EmptyCollector()" % N2C:
+        raise Fail('reservation statement changed: %s' % _u(tb[1])[:100])
+    # falsy branch
+    pop = "%s.pop('target_info', None)" % N2C
+    eb = top.orelse
+    if len(eb) == 1 and isinstance(eb[0], ast.If) and not eb[0].orelse and _u(eb[0].test) == PREV and [_u(x) for x in eb[0].body] == [pop]:
+        guarded = True
+    elif [_u(x) for x in eb] == [pop]:
+        guarded = False
+    else:
+        raise Fail('falsy branch is not `elif %s: %s`: %s' % (PREV, pop, ' / '.join(_u(x) for x in eb).replace('\n', ' ')[:120]))
+    return ({'setTargetInfoStoresAfterCheck': after, 'setTargetInfoClashNegatesPrevious': neg,
+             'setTargetInfoClashIsConjunction': isinstance(ct.op, ast.And), 'setTargetInfoClearsOnlyWhenPreviouslySet': guarded},
+            '%sif labels: [if %s%s %s claimed: raise ; reserve] el%s: pop%s' % (
+                '' if after else 'store ; ', 'not ' if neg else '', 'prev', 'and' if isinstance(ct.op, ast.And) else 'or',
+                'if prev' if guarded else 'se', ' ; store' if after else ''))
+
+
+def shape_collect(tree):
+    f = find_func(tree, 'collect', cls='CollectorRegistry')
+    pre, body, rest = _single_with(_body(f), 'self._lock', 'collect')
+    if not all(_is_none_init(st) for st in pre):
+        raise Fail('statement before the lock not understood: %s' % _u([st for st in pre if not _is_none_init(st)][0])[:80])
+    copies = ('copy.copy(%s)' % C2N, '%s.copy()' % C2N, 'dict(%s)' % C2N, 'list(%s)' % C2N)
+    if len(body) != 2 or not (isinstance(body[0], ast.Assign) and _u(body[0].targets[0]) == 'collectors' and _u(body[0].value) in copies):
+        raise Fail('locked block does not start with `collectors = <copy of %s>`' % C2N)
+    if _u(body[1]) != 'if %s:\n    ti = self._target_info_metric()' % TI:
+        raise Fail('target info is not read as `if %s: ti = self._target_info_metric()`: %s' % (TI, _u(body[1]).replace('\n', ' / ')[:100]))
+    y_ti = 'if ti:\n    yield ti'
+    y_co = 'for collector in collectors:\n    yield from collector.collect()'
+    r = [_u(st) for st in rest]
+    if r == [y_ti, y_co]:
+        first = True
+    elif r == [y_co, y_ti]:
+        first = False
+    else:
+        raise Fail('the part after the lock is not [yield ti if set ; yield from every collector]: %s' % ' / '.join(r).replace('\n', ' ')[:160])
+    return {'collectSnapshotsUnderLock': True, 'collectTargetInfoFirst': first}, 'lock[ snapshot ; ti? ] %s' % ('ti ; collectors' if first else 'collectors ; ti')
+
+
+def shape_get_names(tree):
+    f = find_func(tree, '_get_names', cls='CollectorRegistry')
+    b = [_u(st) for st in _body(f)]
+    want = ['desc_func = None',
+            'try:\n    desc_func = collector.describe\nexcept AttributeError:\n    pass',
+            'if not desc_func and self._auto_describe:\n    desc_func = collector.collect',
+            'if not desc_func:\n    return []']
+    alt = ["desc_func = getattr(collector, 'describe', None)"] + want[2:]
+    if b[:4] == want or b[:3] == alt:
+        return {'getNamesAutoDescribeFallback': True}, 'describe | (absent & auto_describe -> collect) | []'
+    if b[:3] == want[:2] + want[3:]:
+        return {'getNamesAutoDescribeFallback': False}, 'describe | []'
+    raise Fail('choice of desc_func changed: %s' % ' / '.join(b[:4]).replace('\n', ' ')[:220])
+
+
+def shape_restricted(tree):
+    f = find_func(tree, 'collect', cls='RestrictedRegistry')
+    stmts = _body(f)
+    pre, body, rest = _single_with(stmts, 'self._registry._lock', 'RestrictedRegistry.collect')
+    is_set = None
+    for st in pre:
+        if _u(st) == 'collectors = set()':
+            is_set = True
+        elif _u(st) in ('collectors = []', 'collectors = list()'):
+            is_set = False
+        elif not _is_none_init(st):
+            raise Fail('statement before the lock not understood: %s' % _u(st)[:80])
+    if is_set is None:
+        raise Fail('`collectors` is not initialised to set() or []')
+    add = 'collectors.add' if is_set else 'collectors.append'
+    loop = ('for name in self._name_set:\n    if name in self._registry._names_to_collectors:\n'
+            '        %s(self._registry._names_to_collectors[name])' % add)
+    under_lock = True
+    if len(body) == 1 and rest and _u(rest[0]) == loop:
+        under_lock = False
+        rest = rest[1:]
+    elif len(body) == 2 and _u(body[1]) == loop:
+        pass
+    else:
+        raise Fail('name resolution loop changed: %s' % ' / '.join(_u(x) for x in body[1:] + rest[:1]).replace('\n', ' ')[:220])
+    t = body[0]
+    if not isinstance(t, ast.If) or t.orelse or [_u(x) for x in t.body] != ['target_info_metric = self._registry._target_info_metric()']:
+        raise Fail('target info is not read as `if …: target_info_metric = self._registry._target_info_metric()`')
+    parts = [_u(v) for v in t.test.values] if isinstance(t.test, ast.BoolOp) and isinstance(t.test.op, ast.And) else [_u(t.test)]
+    req, conf = "'target_info' in self._name_set", 'self._registry._target_info'
+    if not parts or any(p not in (req, conf) for p in parts):
+        raise Fail('target-info condition not understood: %s' % _u(t.test)[:120])
+    want_rest = ['if target_info_metric:\n    yield target_info_metric',
+                 'for collector in collectors:\n    for metric in collector.collect():\n'
+                 '        m = metric._restricted_metric(self._name_set)\n        if m:\n            yield m']
+    if [_u(x) for x in rest] != want_rest:
+        raise Fail('the yielding part changed: %s' % ' / '.join(_u(x) for x in rest).replace('\n', ' ')[:220])
+    return ({'restrictedResolvesUnderLock': under_lock, 'restrictedCollectorsIsSet': is_set,
+             'restrictedTargetInfoNeedsRequested': req in parts, 'restrictedTargetInfoNeedsConfigured': conf in parts,
+             'restrictedFiltersAndDropsEmpty': True},
+            '%s ; ti if %s ; %s ; yield filtered non-empty' % ('lock[resolve]' if under_lock else 'lock[] resolve-outside',
+                                                              ' and '.join(parts), 'set' if is_set else 'list'))
+
+
+SHAPES = [('register', shape_register), ('unregister', shape_unregister), ('set_target_info', shape_set_target_info),
+          ('collect', shape_collect), ('_get_names', shape_get_names), ('RestrictedRegistry.collect', shape_restricted)]
+
+
+def shape_flags(repo):
+    """-> (flags, normal-form comments, failures).  Never raises."""
+    flags = {k: True for k, _ in SHAPE_FLAGS}
+    forms, fails = [], []
+    try:
+        tree = parse(repo, SOURCES[0])
+    except Exception as e:          # unreadable file: everything keeps the reference value, one failure line
+        return flags, forms, [('file', str(e))]
+    for name, fn in SHAPES:
+        try:
+            fl, form = fn(tree)
+            flags.update(fl)
+            forms.append((name, form))
+        except Fail as e:
+            fails.append((name, str(e)))
+        except Exception as e:      # an AST shape the reader did not foresee (attribute missing …)
+            fails.append((name, 'unreadable: %s: %s' % (type(e).__name__, e)))
+    return flags, forms, fails
+
+
+def _emit(ok, table, why='', flags=None, notes=(), shape=None):
+    sflags, forms, sfails = shape if shape is not None else ({k: True for k, _ in SHAPE_FLAGS}, [], [])
     out = header(TARGET, SOURCES)
     if not ok:
         out += '-- EXTRACT-FAIL registry._get_names.type_suffixes: %s\n' % why
-    out += 'def extractOk : Bool := %s\n' % ('true' if ok else 'false')
+    for m, w in sfails:
+        out += '-- EXTRACT-FAIL registry.%s: %s\n' % (m, w.replace('\n', ' '))
+    out += 'def extractOk : Bool := %s\n' % ('true' if ok and not sfails else 'false')
     for n in notes:
         out += '-- frame flag note: %s\n' % n
     for k, d in (('enumValidatesBeforeRegister', 'Enum.__init__ rejects its arguments BEFORE the base constructor registers the metric'),
@@ -81,6 +411,11 @@ def _emit(ok, table, why='', flags=None, notes=()):
                  ('targetInfoStoredCopied', 'set_target_info stores a private copy of the caller\'s dict'),
                  ('targetInfoHandedOutCopied', 'get_target_info / the collected target_info sample hand out copies')):
         out += '/-- %s -/\ndef %s : Bool := %s\n' % (d, k, 'true' if (flags or {}).get(k) else 'false')
+    out += '-- decision structure of the methods of registry.py (read from the AST; the model in Model/Registry.lean consults these)\n'
+    for m, form in forms:
+        out += '-- normal form registry.%s: %s\n' % (m, form)
+    for k, d in SHAPE_FLAGS:
+        out += '/-- %s -/\ndef %s : Bool := %s\n' % (d, k, 'true' if sflags.get(k, True) else 'false')
     out += '/-- `type_suffixes` in `CollectorRegistry._get_names`, in source order -/\n'
     out += 'def registrySuffixes : List (List Char × List (List Char)) := [\n'
     out += ',\n'.join('  (%s, %s)' % (chars(k), strlist(v)) for k, v in table)
@@ -136,7 +471,7 @@ def generate(repo):
         if ast.unparse(lp) != want:
             raise Fail('the loop applying type_suffixes changed: %s' % ast.unparse(lp).replace('\n', ' / ')[:200])
         fl, notes = frame_flags(repo)
-        return _emit(True, table, flags=fl, notes=notes)
+        return _emit(True, table, flags=fl, notes=notes, shape=shape_flags(repo))
     except Fail as e:
         fl, notes = frame_flags(repo)
-        return _emit(False, [], str(e), flags=fl, notes=notes)
+        return _emit(False, [], str(e), flags=fl, notes=notes, shape=shape_flags(repo))
